@@ -2,6 +2,7 @@ import CssVerif.Model.OutPrefs
 import CssVerif.Lemmas.OutSheetLayout
 import CssVerif.Lemmas.OutSep
 import CssVerif.Lemmas.OutEffect
+import CssVerif.Lemmas.OutSolid
 /-!
 # C06 — serializer preferences do exactly what they document, in every combination
 
@@ -52,7 +53,8 @@ theorem default_wsPrefs : WsPrefs Prefs.default := by
 lineSeparator / the five spacers, and these are white-space strings, then for EVERY model sheet satisfying the guard
 the output under `p` and the default output are the same text once white space is deleted (and they raise the same
 exception if any). Guard `SheetOk`: nested objects are typed the way the parser types them, and no text the code tests
-for emptiness is white-space-only (`Lemmas/OutSheetLayout.lean`; finding C06-empty-items-block is outside it). -/
+for emptiness is white-space-only (`Lemmas/OutSheetLayout.lean`). For declaration blocks that part of the guard is
+syntactic since the repair of `do_css_CSSStyleDeclaration`: `block_text_guard_is_syntactic` below. -/
 theorem layout_only (p : Prefs) (hp : WsPrefs p) (hc : ContentEq p Prefs.default) (hn : p.lineNumbers = false)
     (sl : Nat) (s : Sheet) (ok : SheetOk p Prefs.default sl s) :
     (doSheet p sl s).map stripWs = (doSheet Prefs.default sl s).map stripWs :=
@@ -80,12 +82,19 @@ theorem append_adds_its_lexeme (p : Prefs) (hp : WsPrefs p) (il : Nat) (o : O) (
 
 /-- Two adjacent words are separated by a non-empty gap under EVERY preference record: the gap is the spacer, or
 one space when the spacer is empty — the special case of `serialize.py:300-307`. (`Plain`: not a punctuation value
-and not ending in a space; `GenericTy`: a type without special treatment.) -/
+and not ending in a space, unless that space is backslash-escaped — a name like `b\ ` is a word since the repair of
+the APPEND phase; `GenericTy`: a type without special treatment.) -/
 theorem words_are_separated (p : Prefs) (hs : allWs p.spacer = true) (il : Nat) (ty w1 w2 : CssVerif.Proto.Cps)
     (ht : GenericTy ty = true) (h1 : Plain w1 = true) (h2 : Plain w2 = true) :
     value (runCalls p il [{ v := .str w1, ty := ty }, { v := .str w2, ty := ty }]) = w1 ++ gapOf p ++ w2 ∧
       gapOf p ≠ [] :=
   ⟨two_words_text p il ty ht w1 w2 h1 h2 hs, gapOf_ne_nil p⟩
+
+/-- the repaired case: `a` then `b\ ` (a name ending with an escaped space) keeps the gap: `a b\ `, not `ab\ ` -/
+example (p : Prefs) (hs : allWs p.spacer = true) :
+    value (runCalls p 1 [{ v := .str [97], ty := t_IDENT }, { v := .str [98, 92, 32], ty := t_IDENT }])
+      = [97] ++ gapOf p ++ [98, 92, 32] :=
+  (words_are_separated p hs 1 t_IDENT [97] [98, 92, 32] (by decide) (by decide) (by decide)).1
 
 /-- … and for any number of words, on the list `Out.out` itself (no hypothesis on the record at all) -/
 theorem every_word_is_followed_by_the_gap (p : Prefs) (il : Nat) (ty : CssVerif.Proto.Cps) (ht : GenericTy ty = true)
@@ -217,19 +226,42 @@ def exUnknownBlock : Sheet :=
       [.urule (.mk true [64, 120] [.str t_S [32], .str t_IDENT [121], .str t_CHAR [59]]),
        .urule (.mk true [64, 122] [.str t_S [32], .str t_IDENT [119], .str t_CHAR [59]])]] }
 
-/-- **finding C06-empty-items-block** (negation of `layout_only` outside its guard): with `keepUnknownAtRules` off the
-block text is white-space-only under the default layout and empty when `lineSeparator` is empty, so the rule is
-written as `a {` … `}` under one layout and not at all under the other -/
-theorem finding_empty_items_block :
-    (doSheet { Prefs.default with keepUnknownAtRules := false } 0 exUnknownBlock).map stripWs = .ok [97, 123, 125] ∧
-    (doSheet { Prefs.default with keepUnknownAtRules := false, lineSeparator := [] } 0 exUnknownBlock).map stripWs
-      = .ok [] := ⟨rfl, rfl⟩
+/-- **(was finding C06-empty-items-block, repaired)** a block that holds nothing but unknown at-rules is written as
+the EMPTY text when `keepUnknownAtRules` is off, under EVERY record (whatever the line separator), … -/
+theorem dropped_unknown_rules_leave_an_empty_block (p : Prefs) (lv : Nat) (om : Bool)
+    (hk : p.keepUnknownAtRules = false) (items : List DItem) (hall : ∀ it ∈ items, ∃ r, it = .urule r) :
+    doDecl p lv items om = .ok [] :=
+  doDecl_all_unknown_dropped p lv om hk items hall
 
-/-- **finding C06-atkeyword-attr**: `@media` (also `@page`, `@font-face`, `@variables`) has no `_keyword`; with
-`defaultAtKeyword` off the serializer raises `AttributeError` -/
-theorem finding_atkeyword_attr :
-    doRule { Prefs.default with defaultAtKeyword := false } 0 0
-      (.media true [64, 109, 101, 100, 105, 97] none (.mlist []) none [] []) = .error .attributeError := rfl
+/-- … so the former witness is now written the same way (not at all) under both layouts -/
+example :
+    doSheet { Prefs.default with keepUnknownAtRules := false } 0 exUnknownBlock = .ok [] ∧
+    doSheet { Prefs.default with keepUnknownAtRules := false, lineSeparator := [] } 0 exUnknownBlock = .ok [] :=
+  ⟨rfl, rfl⟩
+
+/-- **(guard of `layout_only`, promoted)** the `DeclSolid` part of `SheetOk` follows from the shape of the block: if
+every item is an ordinary property, an unknown at-rule with a keyword, or a comment / stray string with
+non-white-space content, the text of the block is empty or has non-white-space content under every record with
+white-space layout strings. (Before the repair this was false: see the history of C06-empty-items-block.) -/
+theorem block_text_guard_is_syntactic (r : Prefs) (hr : WsPrefs r) (lv : Nat) (items : List DItem) (om : Bool)
+    (hs : ∀ it ∈ items, it.solidSrc = true) : DeclSolid r lv items om :=
+  declSolid_of_items hr lv items om hs
+
+/-- **(was finding C06-atkeyword-attr, repaired)** `_atkeyword` is total: the literal keyword when the rule recorded
+one, the normalised keyword otherwise; `@media` with `defaultAtKeyword` off is serialized -/
+theorem atkeyword_never_raises (p : Prefs) (atk : CssVerif.Proto.Cps) (kw : Option CssVerif.Proto.Cps) :
+    atKeyword p atk kw = .ok (if p.defaultAtKeyword then atk else kw.getD atk) :=
+  atKeyword_total p atk kw
+
+/-- **(was C06-atkeyword-attr and C06-linenumbers-emptysep)** the serializer model has ONE way left to raise: the
+`IndexError` of `stacks.pop()` in `do_CSSUnknownRule` (not reachable for a well-formed rule) -/
+theorem the_only_error_is_IndexError (e : Err) : e = .indexError := by
+  cases e; rfl
+
+/-- **(was finding C06-linenumbers-emptysep, repaired)** without a line separator there are no lines to number -/
+theorem lineNumbers_without_separator (p : Prefs) (t : CssVerif.Proto.Cps) (h : p.lineSeparator = []) :
+    lineNumbers p t = .ok t :=
+  lineNumbers_empty_separator p t h
 
 /-- **finding C06-selectorlevel-leak**: the text depends on `_selectorlevel`, state of the serializer object that is not
 a preference and that `useDefaults()` therefore cannot restore (`indentSpecificities` raises it) -/
@@ -240,10 +272,6 @@ theorem finding_selectorlevel_is_state :
   have b : doSheet Prefs.default 1 exSheet = .ok [32, 32, 32, 32, 97, 32, 98, 32, 123, 10, 32, 32, 32, 32, 32, 32, 32,
     32, 99, 58, 32, 35, 97, 98, 99, 10, 32, 32, 32, 32, 32, 32, 32, 32, 125] := rfl
   rw [a, b]; intro h; cases h
-
-/-- **finding C06-linenumbers-emptysep**: `lineNumbers` with an empty `lineSeparator` raises `ValueError` -/
-theorem finding_linenumbers_emptysep :
-    doSheet { Prefs.default with lineNumbers := true, lineSeparator := [] } 0 exSheet = .error .valueError := rfl
 
 /-- **finding C06-indent-inside-token**: `_indentblock` splits the text wherever the line separator occurs, also inside
 a comment: `a{x:y;/*c⏎d*/}` is written with the comment `/*c⏎    d*/` -/
